@@ -33,6 +33,9 @@ OBLIGATIONS = [
     (P + "http_roundtrip", "HTTP round trip: well-formed request, header lines folded any way, body, any segmentation -> exactly the peer's head and body stream reach the request layer"),
     (P + "keepalive_sequence_http", "HTTP keep-alive: well-formed requests back to back on one connection, any segmentation, are each delivered exactly, in order"),
     (P + "frontends_agree_http", "the embedded HTTP server and a gateway sending the derived CGI variables over SCGI / FastCGI (any framing, any segmentation) agree on the fate of the request"),
+    (P + "view_roundtrip_get", "from the head to the application's view (shared by the three front-ends): query string and cookie header written by the peer-side encoders -> exactly those GET fields and cookies"),
+    (P + "view_roundtrip_post", "urlencoded POST body written by the peer-side encoder -> exactly those POST fields and the raw body, exactly the body consumed"),
+    (P + "http_get_end_to_end", "HTTP end to end: well-formed GET, any folding, any segmentation -> the application runs once on exactly the view the peer meant"),
     (P + "scgi_roundtrip", "SCGI round trip: WF request encoded by the peer, any segmentation -> exactly the peer's environment (pairs, order) and body stream reach the request layer"),
 ]
 OBLIGATIONS_FILE = os.path.join(HERE, "c01_obligations.json")
